@@ -8,6 +8,7 @@ package main
 import (
 	"errors"
 	"fmt"
+	"slices"
 	"sort"
 	"strings"
 
@@ -296,7 +297,7 @@ func (r *run) injectTx(to []int) {
 
 // giveTx serves one transaction the node's service asked for (Config.RequestTx), the way
 // network.Server.txHandlerLoop does: consensus callback first, then the mempool.
-func (r *run) giveTx(nd *node) bool {
+func (r *run) giveTx(nd *node, once bool) bool {
 	nd.mu.Lock()
 	req := append([]util.Uint256(nil), nd.requested...)
 	nd.mu.Unlock()
@@ -304,6 +305,12 @@ func (r *run) giveTx(nd *node) bool {
 		return false
 	}
 	h := req[r.r.Intn(len(req))]
+	if once {
+		h = req[0]
+		nd.mu.Lock()
+		nd.requested = slices.DeleteFunc(nd.requested, func(x util.Uint256) bool { return x == h })
+		nd.mu.Unlock()
+	}
 	tx, ok := r.txs[h]
 	if !ok {
 		return false
@@ -398,7 +405,7 @@ func (r *run) adversarial() {
 		case 6:
 			nd := r.cl.nodes[r.r.Intn(r.cl.n)]
 			if !r.silent[nd.idx] {
-				r.giveTx(nd)
+				r.giveTx(nd, false)
 			}
 		case 7:
 			nd := r.cl.nodes[r.r.Intn(r.cl.n)]
@@ -436,21 +443,8 @@ func (r *run) fair(blocks int) {
 				progressed = true
 			}
 			for _, nd := range r.cl.nodes {
-				for r.giveTx(nd) {
+				for r.giveTx(nd, true) {
 					progressed = true
-					// a served request is dropped from the wish list
-					nd.mu.Lock()
-					if len(nd.requested) > 0 {
-						// remove what the node now has in its pool
-						var rest []util.Uint256
-						for _, h := range nd.requested {
-							if !nd.bc.GetMemPool().ContainsKey(h) {
-								rest = append(rest, h)
-							}
-						}
-						nd.requested = rest
-					}
-					nd.mu.Unlock()
 				}
 				for r.relay(nd) {
 					progressed = true
